@@ -744,6 +744,7 @@ func C16(c *Ctx) {
 	r.Rule("R16.11", "a pause covers only what its un-pause restores: un-pausing always ends in available (the service FSM has one exit from pause), so ServiceManager.pauseService moves a service to pause only behind a test of the service's status that excludes frozen (a status comparison with frozen / available on the loaded service) - otherwise a service frozen by governance comes back available through any pause / un-pause cycle of its appchain (freeze + activate of the chain, an update or a withdrawn logout of the chain) without an activate proposal of its own, and interchanges again.")
 	c.c16PauseScope()
 	c.c16UpdateKeepsFreeze()
+	c.c16PreEventStatus()
 	r.Rule("R16.9", "services resume only with their appchain: an UnPauseChainService cross-invoke of the appchain manager lies on the approved branch of Manage (approved activate / update end in available by the FSM table), or behind a comparison of the status the appchain returns to (lastStatus / a loaded status) with available or freezing - the statuses in which an appchain's services run; an unconditional un-pause where the appchain goes back to lastStatus (rejected logout, master-rule update of a frozen chain) lets a frozen appchain interchange.")
 	{
 		m := c.Contracts()
